@@ -8,12 +8,36 @@ Import ListNotations.
    close() has not completed the file carries the 'writing' flag; whatever survives on disk
    (nothing readable, or any such state) never opens cleanly. *)
 Theorem crash_detected :
-  forall (X D S : Type) (p : spt X D S) (ops : list (wop X)) (d : disk X D S),
-    Forall (not_close X) ops ->
+  forall (X D S : Type) (p : spt X D S) (ops : list (wop X S)) (d : disk X D S),
+    Forall (not_close X S) ops ->
     d = Unreadable X D S \/ d = Content X D S (fold_left (wstep X D S) ops (create X D S p)) ->
     forall f, open_read X D S d <> Clean f.
 Proof. exact PTFileSpec.crash_detected. Qed.
 Print Assumptions crash_detected.
+
+(* (1b) the name / description setters belong to the operations of (1): a file object that is renamed or described while it is
+   being filled is still flagged until close() -- whatever survives a death after the renaming does not open cleanly *)
+Example crash_premise_met_renamed :
+  Forall (not_close nat nat) [WMpo nat nat 0 ([1;1;1], [Some 1]); WName nat nat 7; WDesc nat nat 8; WCap nat nat 0 ([1], [Some 1])].
+Proof. repeat constructor. Qed.
+
+(* ... and renaming changes nothing but the attribute: flag, dimension, time step, transforms and every tensor slot are those
+   of the same writer with the renames left out (any operation sequence, renames anywhere) *)
+Theorem renames_invisible :
+  forall (X D S : Type) (p : spt X D S) (ops : list (wop X S)),
+    payload X D S (fold_left (wstep X D S) ops (create X D S p)) =
+    payload X D S (fold_left (wstep X D S) (filter (fun o => negb (is_rename X S o)) ops) (create X D S p)).
+Proof. intros. apply PTFileSpec.renames_invisible. reflexivity. Qed.
+Print Assumptions renames_invisible.
+
+(* a setter that rewrites all attributes with writing = false: the file of a writer that renamed it and died opens cleanly
+   with a tensor missing *)
+Theorem rename_resets_flag_refuted :
+  exists f, open_read nat nat nat (Content nat nat nat
+     (fold_left (bad_wstep nat nat nat) [WMpo nat nat 0 ([1;1;1], [Some 1]); WName nat nat 7]
+        (create nat nat nat (Build_spt nat nat nat 2 None None None 1 2 None [] [])))) = Clean f /\ f_caps nat nat nat f = [].
+Proof. eexists. split; reflexivity. Qed.
+Print Assumptions rename_resets_flag_refuted.
 
 (* (2) export() killed after any strict prefix of its operations *)
 Theorem export_crash_detected :
@@ -63,5 +87,5 @@ Proof. intros [|] [|]; cbn; repeat split; intros; try reflexivity; try discrimin
 Print Assumptions api_no_clobber.
 
 Example crash_premise_met :
-  Forall (not_close nat) [WInit nat None; WMpo nat 0 ([1;1;1], [Some 1]); WCap nat 0 ([1], [Some 1])].
+  Forall (not_close nat nat) [WInit nat nat None; WMpo nat nat 0 ([1;1;1], [Some 1]); WCap nat nat 0 ([1], [Some 1])].
 Proof. repeat constructor. Qed.
